@@ -4,7 +4,7 @@
 Require Extraction.
 Require Import ExtrOcamlBasic ExtrOcamlZBigInt ExtrOcamlNatBigInt.
 From LZ4V Require Import Spec.BlockSpec Spec.BlockFast.
-From LZ4V Require Import Gen.Consts Model.Mem Model.Fast Model.FastApi Model.FastStream Model.HcEmit Model.HcMid Model.HcMidStream.
+From LZ4V Require Import Gen.Consts Model.Mem Model.Fast Model.FastApi Model.FastStream Model.HcEmit Model.HcMid Model.HcMidStream Model.HcChain Model.HcChainApi Model.HcChainStream.
 Extraction Language OCaml.
 Extraction "lz4v.ml"
   spec_decode_fast strict_valid_fast
@@ -12,4 +12,6 @@ Extraction "lz4v.ml"
   s_init resetStream_fast loadDict attach_dictionary renormDictT fast_continue forceExtDict saveDict
   s_fastReset s_extState s_destSize shift_ctx view step run
   hs_init hs_resetStream hs_resetFast hs_setLevel hs_loadDict hs_attach hs_continue hs_continue_destSize hs_saveDict
-  hs_fastReset hs_extState hstep k_endIdx.
+  hs_fastReset hs_extState hstep k_endIdx
+  cs_init cs_resetStream cs_resetFast cs_setLevel cs_loadDict cs_attach cs_continue cs_continue_destSize cs_saveDict
+  cs_fastReset cs_extState cstep ctget.
